@@ -74,6 +74,34 @@ CLAIMED = {
              "additive per-marker postcondition.",
         technique="symbolic execution of the real njit closures + z3 (LIA + linear real arithmetic)",
         ref="5-C07"),
+    "C08": dict(
+        text="Contract-based deductive proof for all real values: the real transfer_forcing_from_grid_to_body of the four rod "
+             "grids and the 2-D / 3-D rigid grids (PyElastica helpers executed from source) with symbolic poses, generic director "
+             "frames (quaternion parametrisation), velocities, masses, radii and marker forces: net force = -sum of marker "
+             "forces; net moment about an arbitrary point of nodal forces + lab-frame couples = -moment of marker forces; rigid-"
+             "body power identity; FlowForces adds the wrench to the body's external loads; interaction wiring against a grid stub.",
+        note=TRUST + " Layouts bounded (2 elements; 3 markers; one representative surface layout with symbolic cap ratios); "
+             "constructors of the grids bypassed (layout caches set symbolically). Trusted lemma M5. With C07 the fluid-side "
+             "integral equals the marker total.",
+        technique="symbolic execution of the real methods on object arrays + exact polynomial identity modulo |q|^2",
+        ref="5-C08"),
+    "C09": dict(
+        text="Contract-based deductive proof for all real values: real compute_lag_grid_position_field / velocity_field of every "
+             "grid class: rigid v_k = V + (Q^T Omega) x (x_k - X), body-fixed positions X + Q^T r, first-order pose-advance "
+             "consistency, sphere translation; rods: rigid motion with the element cross-section, surface radius x cap ratio, "
+             "edge offsets normal to the tangent, centre markers on the centre, nodal grid = nodes.",
+        note=TRUST + " Layouts bounded as for C08; PyElastica pose-advance model assumed; M5.",
+        technique="symbolic execution of the real methods on object arrays + exact polynomial identity modulo |q|^2",
+        ref="5-C09"),
+    "C10": dict(
+        text="Contract-based deductive proof: every public method of the real VirtualBoundaryForcing from an ARBITRARY state "
+             "satisfying the class invariant (ghost integral I): evaluation gives force = k I + c (Iu - V), leaves I and the "
+             "clock unchanged, never writes the flow velocity / body arrays; time_step(dt) adds dt x last mismatch and dt to the "
+             "clock for arbitrary dt; accumulate vs reset postconditions over the whole forcing field (superposition of bodies); "
+             "ImmersedBodyFlowInteraction: coefficient rescaling by spacing^(dim-1), read-only velocity view, call wiring.",
+        note=TRUST + " Trusted lemma M8 (induction over call sequences from method contracts). Two markers in symbolic cells.",
+        technique="class invariant + method contracts by symbolic execution of the real methods; modular use of the evaluation contract",
+        ref="5-C10"),
     "C12": dict(
         text="Contract-based deductive proof: the real curl/divergence/update closures are COMPOSED symbolically on symbolic "
              "fields of symbolic extent; div(curl)=0, curl-type updates leave div unchanged, 2-D stream-function velocity "
